@@ -19,7 +19,7 @@ def _run_chunk(items):
         exp = _G['expected'][key]
         try:
             got = outline_real.run_outline(_G['outlines'][oi - 1], _G['oracles'][ri - 1], crash_at=_G['crash'][ci - 1],
-                                           medium=_G['medium'], lag=_G.get('lag', 0), loaders=_G.get('loaders', 'default'))
+                                           medium=_G['medium'], lag=_G.get('lag', 0), loaders=_G.get('loaders', 'default'), reloads=_G.get('reloads', 0))
         except Exception as e:  # noqa
             out.append((key, 'implementation raised %r' % (e,), None))
             continue
@@ -33,15 +33,15 @@ def _run_chunk(items):
         elif got['result'] != want_res:
             out.append((key, 'result %s, specification %s' % (got['result'], want_res), got))
         elif got['roundtrip_bad']:
-            out.append((key, 'save-load-save gives a different bundle: %s' % got['roundtrip_bad'][:2], got))
+            out.append((key, 'checkpoint round trip (save-load-save, or the same checkpoint loaded again): %s' % got['roundtrip_bad'][:2], got))
         elif got['restores'] != want_restores:
             out.append((key, 'restores %s, specification %s' % (got['restores'], want_restores), got))
     return out
 
 
 def _tlc_chunk(args):
-    name, k, outlines, oracles, crash_sets, cfgx, timeout, offset, lag = args
-    tla, cfg = om.mc_module('MC_%s_%d' % (name, k), outlines, oracles, crash_sets, cfg_extra=cfgx, lag=lag)
+    name, k, outlines, oracles, crash_sets, cfgx, timeout, offset, lag, reloads = args
+    tla, cfg = om.mc_module('MC_%s_%d' % (name, k), outlines, oracles, crash_sets, cfg_extra=cfgx, lag=lag, reloads=reloads)
     with tlc.Workdir() as wd:
         wd.write('MC_%s_%d.tla' % (name, k), tla)
         wd.write('MC_%s_%d.cfg' % (name, k), cfg)
@@ -56,7 +56,7 @@ class _Res:
 
 
 def model_and_replay(name, outlines, oracles, crash_sets=((),), invariants=(), medium='pickle', procs=None, timeout=3000,
-                     chunk=120, lag=0, loaders='default', max_behaviours=150000):
+                     chunk=120, lag=0, loaders='default', max_behaviours=150000, reloads=0):
     """model_and_replay_slice over slices of the family small enough for the expected values of one slice (one record per
     behaviour, shared with 16 forked workers) to stay in memory; the result keeps the expected values of the mismatches and of a
     few samples only."""
@@ -65,7 +65,7 @@ def model_and_replay(name, outlines, oracles, crash_sets=((),), invariants=(), m
     tot = None
     for off in range(0, max(1, len(outlines)), size):
         part = model_and_replay_slice('%s_s%d' % (name, off // size) if len(outlines) > size else name, outlines[off:off + size], oracles,
-                                      crash_sets, invariants, medium, procs, timeout, chunk, lag, loaders)
+                                      crash_sets, invariants, medium, procs, timeout, chunk, lag, loaders, reloads)
         keep = {k for k, _, _ in part['mismatches']}
         withcrash = [k for k in sorted(part['expected']) if crash_sets[k[2] - 1]]
         keep |= set(withcrash[len(withcrash) // 2:len(withcrash) // 2 + 3]) | set(sorted(part['expected'])[:2])
@@ -93,13 +93,13 @@ def model_and_replay(name, outlines, oracles, crash_sets=((),), invariants=(), m
 
 
 def model_and_replay_slice(name, outlines, oracles, crash_sets=((),), invariants=(), medium='pickle', procs=None, timeout=3000,
-                           chunk=120, lag=0, loaders='default'):
+                           chunk=120, lag=0, loaders='default', reloads=0):
     """TLC on the family (invariants + one Report line per finished behaviour), then every behaviour on the real code.
     The family is checked in chunks (TLC's initial-state generation is quadratic in the size of the constant)."""
     from concurrent.futures import ThreadPoolExecutor
     cfgx = ''.join('INVARIANT %s\n' % i for i in invariants) + 'INVARIANT Report\n'
     t0 = time.time()
-    jobs = [(name, k, outlines[i:i + chunk], oracles, crash_sets, cfgx, timeout, i, lag)
+    jobs = [(name, k, outlines[i:i + chunk], oracles, crash_sets, cfgx, timeout, i, lag, reloads)
             for k, i in enumerate(range(0, len(outlines), chunk))]
     with ThreadPoolExecutor(max_workers=8) as ex:
         parts = list(ex.map(_tlc_chunk, jobs))
@@ -123,7 +123,7 @@ def model_and_replay_slice(name, outlines, oracles, crash_sets=((),), invariants
     n_expected = len(outlines) * len(oracles) * len(crash_sets)
     if len(expected) != n_expected:
         raise tlc.MachineryError('expected %d reports from TLC, got %d' % (n_expected, len(expected)))
-    _G.update(outlines=outlines, oracles=oracles, crash=[sorted(c) for c in crash_sets], expected=expected, medium=medium, lag=lag, loaders=loaders)
+    _G.update(outlines=outlines, oracles=oracles, crash=[sorted(c) for c in crash_sets], expected=expected, medium=medium, lag=lag, loaders=loaders, reloads=reloads)
     keys = sorted(expected)
     procs = procs or min(16, os.cpu_count() or 1)
     n = max(1, len(keys) // (procs * 4))
